@@ -213,6 +213,8 @@ fn oracle(init_remote: SocketAddr, ops: &[Op], obs: &[Obs]) -> (Option<String>, 
                                 }
                             } else if total >= max as u32 {
                                 set_fail(&mut fail, format!("op {}: {} probation packets observed (max {}) and still no commit", i, total, max));
+                            } else if let Some(w) = spec_winner {
+                                set_fail(&mut fail, format!("op {}: the documented rules elect {} after {} probation packets but the latch was not committed", i, w, total));
                             }
                         }
                     }
